@@ -246,6 +246,7 @@ type Hist struct {
 	derivedOK bool
 	maxSlots int
 	maxNodes int
+	big      bool
 }
 
 func (h *Hist) tracef(format string, a ...any) {
